@@ -1533,7 +1533,7 @@ def make_suites(ctx):
     suites = {
         "ints": mk("ints", "exec_varint", vi_encode, vi_impl, vi_oracle),
         "ack": mk("ack", "exec_ack", ack_encode, ack_impl, ack_oracle),
-        "header": mk("header", "exec_header", hd_encode, hd_impl, hd_oracle),
+        "header": mk("header", "exec_quic_header", hd_encode, hd_impl, hd_oracle),
     }
     suites["tparams"] = mk("tparams", "exec_tparams", tp_encode, tp_impl, tp_oracle)
     suites["tls"] = mk("tls", "exec_tls", tls_encode, tls_impl, tls_oracle)
